@@ -4,6 +4,8 @@
   (hence ℚ and ℝ); IEEE doubles enter only through the correspondence check.
 -/
 import SkyllhModel.Model.Livetime
+import SkyllhModel.Model.LivetimeR7
+import SkyllhModel.Generated.C14
 import SkyllhModel.Proofs.Livetime
 import SkyllhModel.Proofs.LivetimeBetween
 import SkyllhModel.Proofs.LivetimeGrl
@@ -641,3 +643,461 @@ example : C14.Sorted ([(0, 2), (2, 4), (6, 6), (8, 12)] : List (ℚ × ℚ)) := 
   unfold C14.Sorted flat; simp; norm_num
 example : (0 : ℚ) < C14.total ([(0, 2), (2, 4), (6, 6), (8, 12)] : List (ℚ × ℚ)) := by
   simp [C14.total]; norm_num
+
+/-! ## Round 7: the widened model (`Model/LivetimeR7.lean`) -/
+namespace C14R7
+open LivetimeR7
+
+variable {F : Type}
+
+theorem flat_unflat_even (a : Nat) : ∀ (l : List F), l.length = a * 2 →
+    flat (unflat l) = l ∧ (unflat l).length = a := by
+  induction a with
+  | zero => intro l h; have : l = [] := List.length_eq_zero_iff.mp (by omega); subst this; simp [unflat, flat]
+  | succ n ih =>
+    intro l h
+    cases l with
+    | nil => simp at h
+    | cons x l' =>
+      cases l' with
+      | nil => simp at h; omega
+      | cons y rest =>
+        have hr : rest.length = n * 2 := by simp at h; omega
+        obtain ⟨h1, h2⟩ := ih rest hr
+        constructor
+        · simp only [unflat]
+          rw [show flat ((x, y) :: unflat rest) = x :: y :: flat (unflat rest) from by simp [flat]]; rw [h1]
+        · simp [unflat, h2]
+
+theorem unflat_flat (ivs : List (F × F)) : unflat (flat ivs) = ivs := by
+  induction ivs with
+  | nil => simp [flat, unflat]
+  | cons p rest ih =>
+    rw [show flat (p :: rest) = p.1 :: p.2 :: flat rest from by simp [flat]]
+    simp [unflat, ih]
+
+theorem mapM_some_of_forall {α β : Type} (f : α → Option β) (P : β → Prop) :
+    ∀ (us : List α), (∀ u ∈ us, ∃ x, f u = some x ∧ P x) →
+      ∃ xs, us.mapM f = some xs ∧ xs.length = us.length ∧ ∀ x ∈ xs, P x := by
+  intro us
+  induction us with
+  | nil => intro _; exact ⟨[], by simp⟩
+  | cons u rest ih =>
+    intro h
+    obtain ⟨x, hx, hp⟩ := h u (by simp)
+    obtain ⟨xs, hxs, hl, hP⟩ := ih (fun v hv => h v (by simp [hv]))
+    refine ⟨x :: xs, ?_, by simp [hl], ?_⟩
+    · simp [List.mapM_cons, hx, hxs]
+    · intro y hy
+      rcases List.mem_cons.mp hy with rfl | hy
+      · exact hp
+      · exact hP y hy
+
+end C14R7
+
+section r7
+open LivetimeR7
+variable {F : Type} [LinearOrder F]
+
+/-- **the integrity check accepts exactly** float64 ndarrays of the required rank and column count whose
+elements are non-decreasing in logical order (all five guards of `assert_mjd_intervals_integrity`). -/
+theorem c14_assert_integrity_ok_iff (n c : Nat) (d : ArrDesc F) :
+    assertIntegrity n c d = .ok () ↔
+      (d.isNdarray = true ∧ d.isF64 = true ∧ d.shape.length = n ∧ d.shape[1]? = some c ∧
+        integrity d.data = true) := by
+  unfold assertIntegrity
+  split_ifs <;> simp_all
+
+/-- **which exception**: each raising branch fires exactly when all earlier guards passed and its own failed
+(the order of the code: type, dtype, rank, columns, monotonicity). -/
+theorem c14_assert_integrity_errors (n c : Nat) (d : ArrDesc F) :
+    (assertIntegrity n c d = .error .typeNotNdarray ↔ d.isNdarray = false) ∧
+    (assertIntegrity n c d = .error .typeNotF64 ↔ (d.isNdarray = true ∧ d.isF64 = false)) ∧
+    (assertIntegrity n c d = .error .valNdim ↔
+      (d.isNdarray = true ∧ d.isF64 = true ∧ d.shape.length ≠ n)) ∧
+    (assertIntegrity n c d = .error .valCols ↔
+      (d.isNdarray = true ∧ d.isF64 = true ∧ d.shape.length = n ∧ d.shape[1]? ≠ some c)) ∧
+    (assertIntegrity n c d = .error .valNotMonotone ↔
+      (d.isNdarray = true ∧ d.isF64 = true ∧ d.shape.length = n ∧ d.shape[1]? = some c ∧
+        integrity d.data = false)) := by
+  unfold assertIntegrity
+  split_ifs <;> simp_all
+
+/-- the structure the model relies on, as read from the current source: rank 2, two columns, `digitize` for the
+lower and `digitize(right=True)` for the excluded upper bound, `t_end <= t_start` as the empty-window test,
+`None` defaults of `draw_ontimes`, `>=` / `<` event masks, and the order of the raised exception classes. -/
+theorem c14_structure_for_current_source :
+    Gen.C14.reqNdim = 2 ∧ Gen.C14.reqCols = 2 ∧
+    Gen.C14.integRaises = ["TypeError", "TypeError", "ValueError", "ValueError", "ValueError"] ∧
+    Gen.C14.startRight = false ∧ Gen.C14.endRight = true ∧ Gen.C14.emptyWindowOp = "LtE" ∧
+    Gen.C14.tMinNone = true ∧ Gen.C14.tMaxNone = true ∧
+    Gen.C14.i3Raises = ["TypeError", "ValueError"] ∧ Gen.C14.subsetRaises = ["TypeError", "TypeError"] ∧
+    Gen.C14.subsetOps = ["GtE", "Lt", "GtE", "Lt"] := by
+  decide
+
+/-- **the constructor at the constants of the current source**: whatever array description it accepts (whose
+element count is the product of its shape — a numpy invariant) is an (N,2) array, the object holds exactly its
+rows, and they form a valid (sorted, non-overlapping) interval list — the precondition of every query theorem. -/
+theorem c14_construct_for_current_source (d : ArrDesc F) (ivs : List (F × F))
+    (hwf : d.data.length = d.shape.prod)
+    (h : construct Gen.C14.reqNdim Gen.C14.reqCols d = .ok ivs) :
+    C14.Sorted ivs ∧ flat ivs = d.data ∧ d.shape = [ivs.length, 2] := by
+  have e1 : Gen.C14.reqNdim = 2 := rfl
+  have e2 : Gen.C14.reqCols = 2 := rfl
+  rw [e1, e2] at h
+  unfold construct at h
+  cases ha : assertIntegrity 2 2 d with
+  | error e => rw [ha] at h; cases h
+  | ok u =>
+    rw [ha] at h
+    cases u
+    obtain ⟨-, -, hl, hc, hi⟩ := (c14_assert_integrity_ok_iff 2 2 d).mp ha
+    have hivs : ivs = unflat d.data := by cases h; rfl
+    match hsh : d.shape, hl, hc with
+    | [a, b], _, hc =>
+      have hb : b = 2 := by simpa using hc
+      subst hb
+      have hlen : d.data.length = a * 2 := by rw [hwf, hsh]; simp
+      obtain ⟨h1, h2⟩ := C14R7.flat_unflat_even a d.data hlen
+      rw [hivs]
+      refine ⟨?_, h1, by rw [h2]⟩
+      rw [← c14_integrity_sorted, h1]; exact hi
+
+/-- conversely a valid interval list, handed over as an (N,2) float64 ndarray, is accepted and held unchanged -/
+theorem c14_construct_accepts (ivs : List (F × F)) (hs : C14.Sorted ivs) :
+    construct 2 2 (descOf ivs) = .ok ivs := by
+  have hi : integrity (flat ivs) = true := (c14_integrity_sorted ivs).mpr hs
+  have : assertIntegrity 2 2 (descOf ivs) = .ok () :=
+    (c14_assert_integrity_ok_iff 2 2 _).mpr ⟨rfl, rfl, rfl, rfl, hi⟩
+  unfold construct
+  rw [this]
+  simp [descOf, C14R7.unflat_flat]
+
+/-- **good-run-list files**: `from_grl_files` accepts exactly the file lists whose concatenated rows (file
+order, row order) are a valid interval list, and then holds those rows. -/
+theorem c14_from_grl_files (files : List (List (F × F))) :
+    fromGrlFiles files = (if integrity (flat files.flatten) then some files.flatten else none) :=
+  c14_from_grl files.flatten
+
+/-- … and then a time is on exactly when it lies in a run of one of the files. -/
+theorem c14_from_grl_files_on_iff (files : List (List (F × F))) (ivs : List (F × F))
+    (h : fromGrlFiles files = some ivs) (t : F) :
+    isOn ivs t = true ↔ ∃ f ∈ files, ∃ p ∈ f, p.1 ≤ t ∧ t < p.2 := by
+  rw [c14_from_grl_files] at h
+  split_ifs at h with hi
+  cases h
+  rw [c14_is_on_iff _ t ((c14_integrity_sorted _).mp hi)]
+  unfold C14.InOn
+  constructor
+  · rintro ⟨p, hp, h1, h2⟩
+    obtain ⟨f, hf, hpf⟩ := List.mem_flatten.mp hp
+    exact ⟨f, hf, p, hpf, h1, h2⟩
+  · rintro ⟨f, hf, p, hpf, h1, h2⟩
+    exact ⟨p, List.mem_flatten.mpr ⟨f, hf, hpf⟩, h1, h2⟩
+
+/-- **`from_I3Dataset`**: `TypeError` for anything but an `I3Dataset`, `ValueError` for a dataset without GRL
+files (in this order), otherwise exactly `from_grl_files` on the files of the dataset. -/
+theorem c14_from_i3dataset (isI3 : Bool) (files : List (List (F × F))) :
+    (isI3 = false → fromI3Dataset isI3 files = .error .typeNotI3Dataset) ∧
+    (isI3 = true → files = [] → fromI3Dataset isI3 files = .error .valNoGrlFiles) ∧
+    (isI3 = true → files ≠ [] → fromI3Dataset isI3 files = .ok (fromGrlFiles files)) := by
+  unfold fromI3Dataset
+  refine ⟨?_, ?_, ?_⟩
+  · intro h; simp [h]
+  · intro h1 h2; simp [h1, h2]
+  · intro h1 h2
+    have : files.length ≠ 0 := fun h => h2 (List.length_eq_zero_iff.mp h)
+    simp [h1, this]
+
+/-- **`is_on` on a sequence**: one flag per time, each the half-open membership. -/
+theorem c14_is_on_vec (ivs : List (F × F)) (ts : List F) (hs : C14.Sorted ivs) :
+    (isOnVec ivs ts).length = ts.length ∧
+    ∀ i : Nat, (isOnVec ivs ts)[i]? = some true ↔ ∃ t, ts[i]? = some t ∧ C14.InOn ivs t := by
+  refine ⟨by simp [isOnVec], fun i => ?_⟩
+  simp only [isOnVec, List.getElem?_map]
+  cases h : ts[i]? with
+  | none => simp
+  | some t => simp [c14_is_on_iff ivs t hs]
+
+/-- **the time window spanned by the live time contains all on-time**: `time_window` exists as soon as some time
+is on, and every on time lies in `[time_start, time_stop)`. -/
+theorem c14_time_window_covers (ivs : List (F × F)) (hs : C14.Sorted ivs) (t : F)
+    (hon : isOn ivs t = true) :
+    ∃ a b, timeWindow ivs = some (a, b) ∧ timeStart ivs = some a ∧ timeStop ivs = some b ∧ a ≤ t ∧ t < b := by
+  obtain ⟨p, hp, h1, h2⟩ := (c14_is_on_iff ivs t hs).mp hon
+  have hne : ivs ≠ [] := List.ne_nil_of_mem hp
+  have hw := C14.sorted_le ivs hs
+  -- first row
+  obtain ⟨f, rest, hfr⟩ := List.exists_cons_of_ne_nil hne
+  have hfirst : f.1 ≤ p.1 := by
+    subst hfr
+    unfold C14.Sorted at hs
+    rw [C14.flat_cons] at hs
+    rcases List.mem_cons.mp hp with rfl | hpr
+    · exact le_refl _
+    · have := (List.pairwise_cons.mp hs).1 p.1 (by
+        refine List.mem_cons_of_mem _ ?_
+        unfold flat; exact List.mem_flatMap.mpr ⟨p, hpr, by simp⟩)
+      exact this
+  -- last row
+  have hlast : p.2 ≤ (ivs.getLast hne).2 := by
+    have hsplit := List.dropLast_append_getLast hne
+    rw [← hsplit] at hp
+    rcases List.mem_append.mp hp with hpd | hpl
+    · unfold C14.Sorted at hs
+      rw [← hsplit] at hs
+      unfold flat at hs
+      rw [List.flatMap_append] at hs
+      have := (List.pairwise_append.mp hs).2.2 p.2 (List.mem_flatMap.mpr ⟨p, hpd, by simp⟩)
+        (ivs.getLast hne).2 (by simp)
+      exact this
+    · simp at hpl; rw [hpl]
+  have hst : timeStart ivs = some f.1 := by subst hfr; simp [timeStart]
+  have hsp : timeStop ivs = some (ivs.getLast hne).2 := by
+    unfold timeStop; rw [List.getLast?_eq_some_getLast hne]; rfl
+  refine ⟨f.1, (ivs.getLast hne).2, ?_, hst, hsp, le_trans hfirst h1, lt_of_lt_of_le h2 hlast⟩
+  unfold timeWindow; rw [hst, hsp]
+
+end r7
+
+section r7field
+open LivetimeR7
+variable {K : Type} [Field K] [LinearOrder K] [IsStrictOrderedRing K]
+
+/-- **`get_livetime_upto` on a sequence**: never fails, one value per time, each the on-time before it. -/
+theorem c14_upto_vec (ivs : List (K × K)) (ts : List K) (hs : C14.Sorted ivs) :
+    uptoVec ivs ts = some (ts.map (C14.uptoSpec ivs)) := by
+  unfold uptoVec
+  induction ts with
+  | nil => simp
+  | cons t rest ih => simp [List.mapM_cons, c14_upto_eq_measure ivs t hs, ih]
+
+/-- the two argument forms: a scalar gives a scalar (`.item()`), a sequence (empty included) an array -/
+theorem c14_upto_arg (ivs : List (K × K)) (hs : C14.Sorted ivs) :
+    (∀ t, uptoArg ivs (.scalar t) = some (.scalar (C14.uptoSpec ivs t))) ∧
+    (∀ ts, uptoArg ivs (.seq ts) = some (.seq (ts.map (C14.uptoSpec ivs)))) := by
+  constructor
+  · intro t; simp [uptoArg, c14_upto_eq_measure ivs t hs]
+  · intro ts; simp [uptoArg, c14_upto_vec ivs ts hs]
+
+/-- `get_integrated_livetime`: a number is handed through, a `Livetime` gives its total on-time -/
+theorem c14_integrated_livetime (x : K) (ivs : List (K × K)) :
+    integratedLivetime (Sum.inl x : Sum K (List (K × K))) = x ∧
+    integratedLivetime (Sum.inr ivs : Sum K (List (K × K))) = C14.total ivs := by
+  refine ⟨rfl, ?_⟩
+  simp only [integratedLivetime]
+  unfold livetimeSeq; rw [C14.cumOntime_eq, C14.cumFrom_getLast]; ring
+
+/-- **a whole vector of draws** (`draw_ontimes(rss, size, t_min, t_max)` with at least one bound): one time per
+deviate, each on-time of the original intervals and inside the effective window. -/
+theorem c14_draw_many (ivs : List (K × K)) (tmin tmax : Option K) (f l : K × K) (us : List K)
+    (hs : C14.Sorted ivs) (hf : ivs.head? = some f) (hl : ivs.getLast? = some l)
+    (hsome : tmin.isSome ∨ tmax.isSome)
+    (hab : tmin.getD f.1 < tmax.getD l.2)
+    (hL : 0 < C14.total (betweenSpec ivs (tmin.getD f.1) (tmax.getD l.2)))
+    (hu : ∀ u ∈ us, 0 ≤ u ∧ u < 1) :
+    ∃ xs, drawMany ivs tmin tmax us = some xs ∧ xs.length = us.length ∧
+      ∀ x ∈ xs, isOn ivs x = true ∧ tmin.getD f.1 ≤ x ∧ x < tmax.getD l.2 := by
+  have hw : ∀ p ∈ ivs, p.1 ≤ p.2 := C14.sorted_le ivs hs
+  have hb := c14_between_idx_refines ivs _ _ hab hs
+  obtain ⟨xs, hxs, hlen, hP⟩ := C14R7.mapM_some_of_forall
+    (drawOn (betweenSpec ivs (tmin.getD f.1) (tmax.getD l.2)))
+    (fun x => isOn ivs x = true ∧ tmin.getD f.1 ≤ x ∧ x < tmax.getD l.2) us (by
+      intro u hu'
+      obtain ⟨x, hx, hon, h0, h1⟩ :=
+        c14_draw_in_window ivs (tmin.getD f.1) (tmax.getD l.2) u hw (le_of_lt hab) hL (hu u hu').1 (hu u hu').2
+      exact ⟨x, hx, (c14_is_on_iff ivs x hs).mpr hon, h0, h1⟩)
+  refine ⟨xs, ?_, hlen, hP⟩
+  unfold drawMany
+  cases tmin <;> cases tmax <;> simp_all
+
+/-- without bounds: one on-time per deviate -/
+theorem c14_draw_many_unbounded (ivs : List (K × K)) (us : List K) (hs : C14.Sorted ivs)
+    (hL : 0 < C14.total ivs) (hu : ∀ u ∈ us, 0 ≤ u ∧ u < 1) :
+    ∃ xs, drawMany ivs none none us = some xs ∧ xs.length = us.length ∧ ∀ x ∈ xs, isOn ivs x = true := by
+  have hw : ∀ p ∈ ivs, p.1 ≤ p.2 := C14.sorted_le ivs hs
+  obtain ⟨xs, hxs, hlen, hP⟩ := C14R7.mapM_some_of_forall (drawOn ivs) (fun x => isOn ivs x = true) us
+    (fun u hu' => c14_draw_in_ontime ivs u hs hw hL (hu u hu').1 (hu u hu').2)
+  exact ⟨xs, by simpa [drawMany] using hxs, hlen, hP⟩
+
+/-- `size = 0` never fails on a valid live time, whatever the window (also one without on-time) -/
+theorem c14_draw_many_size0 (ivs : List (K × K)) (tmin tmax : Option K) (hs : C14.Sorted ivs)
+    (hne : ivs ≠ []) : drawMany ivs tmin tmax [] = some [] := by
+  obtain ⟨f, hf⟩ : ∃ f, ivs.head? = some f := by
+    cases ivs with
+    | nil => exact absurd rfl hne
+    | cons a r => exact ⟨a, rfl⟩
+  obtain ⟨l, hl⟩ : ∃ l, ivs.getLast? = some l := ⟨ivs.getLast hne, List.getLast?_eq_some_getLast hne⟩
+  have key : ∀ a b : K, ∃ r, betweenIdx ivs a b = some r := by
+    intro a b
+    rcases lt_or_ge a b with h | h
+    · exact ⟨_, c14_between_idx_refines ivs a b h hs⟩
+    · exact ⟨_, c14_between_idx_empty_window ivs a b h⟩
+  unfold drawMany
+  cases tmin with
+  | none =>
+    cases tmax with
+    | none => simp
+    | some b =>
+      simp only [hf, hl, Option.getD_none, Option.getD_some]
+      obtain ⟨r, hr⟩ := key f.1 b
+      rw [hr]; simp
+  | some a =>
+    cases tmax with
+    | none =>
+      simp only [hf, hl, Option.getD_none, Option.getD_some]
+      obtain ⟨r, hr⟩ := key a l.2
+      rw [hr]; simp
+    | some b =>
+      simp only [hf, hl, Option.getD_some]
+      obtain ⟨r, hr⟩ := key a b
+      rw [hr]; simp
+
+/-- **`get_data_subset` with both guards and separate exp / mc events**: `TypeError` first for the data, then
+for the live time; otherwise both event sets are masked with `t_start ≤ time < t_stop`, the restricted intervals
+are exactly on-time ∩ window as a valid interval list and the live time is the on-time inside the window. -/
+theorem c14_data_subset_full (ivs : List (K × K)) (expT mcT : List K) (t0 t1 : K) (h01 : t0 < t1)
+    (hs : C14.Sorted ivs) :
+    (∀ b, dataSubsetFull false b ivs expT mcT t0 t1 = .error .typeData) ∧
+    dataSubsetFull true false ivs expT mcT t0 t1 = .error .typeLivetime ∧
+    ∃ r lt, dataSubsetFull true true ivs expT mcT t0 t1 =
+        .ok (subsetMask expT t0 t1, subsetMask mcT t0 t1, r, lt) ∧ C14.Sorted r ∧
+      (∀ t, C14.InOn r t ↔ (isOn ivs t = true ∧ t0 ≤ t ∧ t < t1)) ∧
+      lt = C14.uptoSpec ivs t1 - C14.uptoSpec ivs t0 := by
+  refine ⟨fun b => by simp [dataSubsetFull], by simp [dataSubsetFull], ?_⟩
+  have hsr := c14_between_sorted ivs t0 t1 h01 hs
+  have hw : ∀ p ∈ ivs, p.1 ≤ p.2 := C14.sorted_le ivs hs
+  refine ⟨betweenSpec ivs t0 t1, livetimeSeq (betweenSpec ivs t0 t1), ?_, hsr, ?_, ?_⟩
+  · unfold dataSubsetFull
+    rw [c14_between_idx_refines ivs t0 t1 h01 hs]
+    simp only [Bool.not_true, Bool.false_eq_true, if_false]
+    rw [if_pos ((c14_integrity_sorted _).mpr hsr)]
+  · intro t
+    rw [c14_between_eq_inter, c14_is_on_iff ivs t hs]
+  · have h2 : livetimeSeq (betweenSpec ivs t0 t1) = C14.total (betweenSpec ivs t0 t1) := by
+      unfold livetimeSeq; rw [C14.cumOntime_eq, C14.cumFrom_getLast]; ring
+    rw [h2, c14_subset_livetime ivs t0 t1 (le_of_lt h01) hw]
+
+/-- an empty (or reversed) window keeps no event, no interval and no live time — and does not raise -/
+theorem c14_data_subset_full_empty_window (ivs : List (K × K)) (expT mcT : List K) (t0 t1 : K)
+    (h : t1 ≤ t0) :
+    dataSubsetFull true true ivs expT mcT t0 t1 =
+      .ok (expT.map (fun _ => false), mcT.map (fun _ => false), [], 0) := by
+  unfold dataSubsetFull
+  rw [c14_between_idx_empty_window ivs t0 t1 h]
+  have hm : ∀ ts : List K, subsetMask ts t0 t1 = ts.map (fun _ => false) := by
+    intro ts
+    unfold subsetMask
+    apply List.map_congr_left
+    intro t _
+    by_cases h0 : t0 ≤ t
+    · have : ¬ t < t1 := not_lt.mpr (le_trans h h0)
+      simp [this]
+    · simp [h0]
+  simp [flat, integrity, livetimeSeq, cumOntime, cumOntime.go, hm]
+
+end r7field
+
+-- non-vacuity (round 7)
+section r7examples
+open LivetimeR7
+example : assertIntegrity 2 2 (descOf ([(0, 2), (2, 4), (6, 6)] : List (ℤ × ℤ))) = .ok () := by decide
+example : assertIntegrity 2 2 ({ isNdarray := true, isF64 := false, shape := [3], data := [3, 1, 2] } : ArrDesc ℤ)
+    = .error .typeNotF64 := by decide
+example : assertIntegrity 2 2 ({ isNdarray := true, isF64 := true, shape := [1, 3], data := [3, 1, 2] } : ArrDesc ℤ)
+    = .error .valCols := by decide
+example : construct Gen.C14.reqNdim Gen.C14.reqCols (descOf ([(0, 2), (2, 4)] : List (ℤ × ℤ))) = .ok [(0, 2), (2, 4)] := by decide
+example : fromGrlFiles ([[(0, 2), (2, 4)], [], [(6, 6), (8, 12)]] : List (List (ℤ × ℤ))) = some [(0, 2), (2, 4), (6, 6), (8, 12)] := by decide
+example : fromGrlFiles ([[(6, 8)], [(0, 2)]] : List (List (ℤ × ℤ))) = none := by decide
+example : fromI3Dataset true ([] : List (List (ℤ × ℤ))) = .error .valNoGrlFiles := by decide
+example : timeWindow ([(0, 2), (2, 4), (8, 12)] : List (ℤ × ℤ)) = some (0, 12) := by decide
+example : timeWindow ([] : List (ℤ × ℤ)) = none := by decide
+example : drawMany ([(0, 2), (4, 6)] : List (ℤ × ℤ)) (some 2) (some 4) [] = some [] := by decide
+example : drawMany ([(0, 2), (4, 6)] : List (ℤ × ℤ)) (some 2) (some 4) [0] = none := by decide
+example : dataSubsetFull true true ([(0, 2), (4, 6)] : List (ℤ × ℤ)) [1, 2, 5] [0, 7] 1 5
+    = .ok ([true, true, false], [false, false], [(1, 2), (4, 5)], 2) := by decide
+end r7examples
+
+section r7history
+open LivetimeR7
+variable {K : Type} [Field K] [LinearOrder K] [IsStrictOrderedRing K]
+
+/-- a numpy array description: the element count is the product of the shape -/
+def C14R7.WfDesc (d : ArrDesc K) : Prop := d.data.length = d.shape.prod
+
+/-- every array handed to the setter in a history is a genuine array description -/
+def C14R7.WfOps : List (OpR7 K) → Prop
+  | [] => True
+  | .setArr d :: ops => C14R7.WfDesc d ∧ C14R7.WfOps ops
+  | _ :: ops => C14R7.WfOps ops
+
+/-- **a rejected assignment — whichever of the five guards fired — leaves the object untouched** -/
+theorem c14_history_r7_rejected_keeps (n c : Nat) (held : List (K × K)) (d : ArrDesc K) (e : Err)
+    (h : construct n c d = .error e) : objStepR7 n c held (.setArr d) = (held, .err e) := by
+  simp [objStepR7, h]
+
+/-- the read-only views and the queries never change the object -/
+theorem c14_history_r7_views_pure (n c : Nat) (held : List (K × K)) (op : OpR7 K)
+    (h : ∀ d, op ≠ .setArr d) : (objStepR7 n c held op).1 = held := by
+  cases op with
+  | setArr d => exact absurd rfl (h d)
+  | _ => rfl
+
+/-- **at the constants of the current source, after any history** of assignments (any array-like, valid or not)
+and queries, the object holds a valid interval list — the hypothesis of all query theorems. -/
+theorem c14_history_r7_sorted_for_current_source (held : List (K × K)) (ops : List (OpR7 K))
+    (hs : C14.Sorted held) (hw : C14R7.WfOps ops) :
+    C14.Sorted (objRunR7 Gen.C14.reqNdim Gen.C14.reqCols held ops).1 := by
+  induction ops generalizing held with
+  | nil => simpa [objRunR7] using hs
+  | cons op rest ih =>
+    have step : C14.Sorted (objStepR7 Gen.C14.reqNdim Gen.C14.reqCols held op).1 ∧ C14R7.WfOps rest := by
+      cases op with
+      | setArr d =>
+        obtain ⟨hd, hr⟩ := hw
+        refine ⟨?_, hr⟩
+        cases hc : construct Gen.C14.reqNdim Gen.C14.reqCols d with
+        | error e => simpa [objStepR7, hc] using hs
+        | ok ivs =>
+          simp only [objStepR7, hc]
+          exact (c14_construct_for_current_source d ivs hd hc).1
+      | qN => exact ⟨hs, hw⟩
+      | qWindow => exact ⟨hs, hw⟩
+      | qLivetime => exact ⟨hs, hw⟩
+      | base q => exact ⟨hs, hw⟩
+    have := ih _ step.1 step.2
+    simpa [objRunR7] using this
+
+/-- **a view at any point of a history answers like a fresh object** built from the list held at that point:
+the answers of a history followed by one more call are the answers of the history plus the stateless answer. -/
+theorem c14_history_r7_query_fresh (n c : Nat) (held : List (K × K)) (ops : List (OpR7 K)) (q : OpR7 K) :
+    (objRunR7 n c held (ops ++ [q])).2 =
+      (objRunR7 n c held ops).2 ++ [(objStepR7 n c (objRunR7 n c held ops).1 q).2] := by
+  induction ops generalizing held with
+  | nil => simp [objRunR7]
+  | cons op rest ih => simp [objRunR7, ih]
+
+end r7history
+
+section r7histexamples
+open LivetimeR7
+example : (objRunR7 2 2 ([(0, 2), (4, 6)] : List (ℚ × ℚ))
+    [.qN, .setArr ⟨true, true, [1, 3], [0, 1, 2]⟩, .qWindow, .setArr (descOf [(1, 3)]), .qWindow]).1 = [(1, 3)] := by
+  decide
+end r7histexamples
+
+section r7empty
+open LivetimeR7
+variable {K : Type} [Field K] [LinearOrder K] [IsStrictOrderedRing K]
+
+/-- **a live time without intervals** (valid; what `get_data_subset` hands back for a window without on-time) has
+cumulative live time 0 at every time and no error (the code raised `IndexError` here before fix c3f6967), nothing is
+on, and it has no time window (`IndexError` of `time_window` / `time_start` / `time_stop`). -/
+theorem c14_upto_no_intervals (t : K) :
+    upto ([] : List (K × K)) t = some 0 ∧ isOn ([] : List (K × K)) t = false ∧
+      timeWindow ([] : List (K × K)) = none := by
+  refine ⟨?_, by simp [isOn, digitize, flat], rfl⟩
+  have := c14_upto_eq_measure ([] : List (K × K)) t (by simp [C14.Sorted, flat])
+  simpa [C14.uptoSpec] using this
+
+end r7empty
